@@ -805,7 +805,7 @@ impl Property for C09 {
         ]
     }
     fn families(&self, tier: Tier) -> Vec<Family<Case>> {
-        vec![Family::random("dag", tier.n(48_000, 250_000), fam_dag), Family::random("chain", tier.n(8_000, 30_000), fam_chain)]
+        vec![Family::random("dag", tier.n(48_000, 600_000), fam_dag), Family::random("chain", tier.n(8_000, 30_000), fam_chain)]
     }
     fn judge(&self, case: &Case, _strict: bool) -> Verdict {
         let doc = case_xml(case);
